@@ -242,6 +242,8 @@ def run(tier, seed, replay=None):
         exp, skip = [], False
         for o in ops:
             rows = [o[1]] if o[0] == 'add' else list(o[1])
+            if any(t <= 0 for t, _ in rows):
+                skip = True; break                      # a zero timestamp is ignored by the store on purpose: left to the correspondence
             if not exp or rows[0][0] > exp[-1][0]:
                 exp.extend(rows); continue
             ts = [t for t, _ in exp]
